@@ -91,11 +91,10 @@ func (r *vReq) apply(g *zzmodel.Ghost) {
 // VerifC01Race: two concurrent clients on shared keys, all interleavings within the preemption
 // bound, from every initial key state reachable by a short history.
 func VerifC01Race() {
-	w := vNewWorld(zzverif.Param("keys", 1))
+	w := vNewWorldTSO(zzverif.Param("keys", 1), func(t tso.TSO) tso.TSO { return &vYieldTSO{t} })
 	w.history()
 	g0 := w.g.Clone()
 	w.s.Yield = func(string) { zzverif.Yield() }
-	w.b.tso = &vYieldTSO{w.b.tso}
 	n := zzverif.Param("clients", 2)
 	reqs := make([]*vReq, n)
 	for i := range reqs {
